@@ -30,7 +30,7 @@ use crate::{
     error::{BoxError, Error},
     ff::Serializable,
     helpers::{
-        BufferedBytesStream, LengthDelimitedStream, RecordsStream, SingleRecordStream,
+        BodyStream, BufferedBytesStream, LengthDelimitedStream, RecordsStream, SingleRecordStream,
         stream::{Chunk, ChunkData, TryFlattenItersExt, process_slice_by_chunks, process_stream_by_chunks},
     },
 };
@@ -128,11 +128,17 @@ enum Item {
 
 struct ChunkSrc {
     items: std::vec::IntoIter<Item>,
+    /// when set, the chunks come from the crate's own body type (which cuts a buffer into network
+    /// chunks itself) instead of the script
+    body: Option<BodyStream>,
 }
 
 impl Stream for ChunkSrc {
     type Item = Result<Bytes, BoxError>;
     fn poll_next(mut self: Pin<&mut Self>, cx: &mut Context<'_>) -> Poll<Option<Self::Item>> {
+        if let Some(b) = self.body.as_mut() {
+            return Pin::new(b).poll_next(cx);
+        }
         match self.items.next() {
             None => Poll::Ready(None),
             Some(Item::Data(d)) => Poll::Ready(Some(Ok(Bytes::from(d)))),
@@ -453,7 +459,11 @@ macro_rules! by_size {
 
 fn run_parser(p: Parser, items: Vec<Item>) -> Parsed {
     let lim = items.iter().filter(|i| matches!(i, Item::Pending)).count();
-    let src = ChunkSrc { items: items.into_iter() };
+    let src = ChunkSrc { items: items.into_iter(), body: None };
+    run_parser_on(p, src, lim)
+}
+
+fn run_parser_on(p: Parser, src: ChunkSrc, lim: usize) -> Parsed {
     match p {
         Parser::Single { s, f } => by_size!(s, f, run_single, src, lim),
         Parser::Batch { s, f } => by_size!(s, f, run_batch, src, lim),
@@ -1229,6 +1239,114 @@ fn random_streams(env: &Env, src: &mut Src<'_>) -> CaseResult {
     Ok(ok)
 }
 
+// ------------------------------------------------------------------------------------------
+// whole bodies: the crate's own chunker between the bytes and the parser
+// ------------------------------------------------------------------------------------------
+
+/// A request body is usually not handed to the parsers as a scripted chunk sequence but as one
+/// buffer (`BodyStream::from(Vec<u8>)` / `BodyStream::new(Bytes)`), which the body type cuts into
+/// network chunks itself. The parse must be the reference parse of the bytes for every body
+/// length; the generator aims at lengths around multiples of the powers of two such a chunker
+/// could use (the oracle knows nothing about chunk sizes).
+fn whole_body(env: &Env, src: &mut Src<'_>) -> CaseResult {
+    const PARSERS: [Parser; 9] = [
+        Parser::Single { s: 4, f: false },
+        Parser::Single { s: 8, f: false },
+        Parser::Batch { s: 4, f: false },
+        Parser::Batch { s: 8, f: false },
+        Parser::Batch { s: 3, f: false },
+        Parser::Batch { s: 7, f: false },
+        Parser::Ld { f: false, flat: false },
+        Parser::Ld { f: false, flat: true },
+        Parser::Buffered { sz: 4096 },
+    ];
+    let p = PARSERS[src.idx(PARSERS.len())];
+    let unit: usize = [1 << 20, 1 << 20, 1 << 20, 1 << 16, 1 << 12, 1 << 21][src.idx(6)];
+    let k = 1 + src.idx(3);
+    let delta: i64 = match src.below(4) {
+        0 | 1 => 0,
+        2 => src.below(17) as i64 - 8,
+        _ => src.below(4097) as i64 - 2048,
+    };
+    let total = ((unit * k) as i64 + delta).max(0) as usize;
+    let total = total.min(3 << 20);
+    // content: records that carry their index, so that a lost, repeated or moved record shows
+    let mut bytes: Vec<u8> = Vec::with_capacity(total);
+    let wire = match p {
+        Parser::Ld { .. } => [256usize, 300, 1024, 65537, 2][src.idx(5)],
+        _ => 0,
+    };
+    match p {
+        Parser::Ld { .. } => {
+            let mut i = 0u64;
+            while bytes.len() < total {
+                let rem = total - bytes.len();
+                if rem < 2 {
+                    // a lone byte: trailing partial data (the reference expects an error)
+                    bytes.push(0);
+                    break;
+                }
+                // never leave a remainder of exactly one byte unless the record cannot grow
+                let mut w = wire.min(rem);
+                if rem - w == 1 && w + 1 <= 65537 {
+                    w += 1;
+                }
+                let len = w - 2;
+                bytes.extend_from_slice(&(len as u16).to_le_bytes());
+                let start = bytes.len();
+                bytes.resize(start + len, (i % 251) as u8);
+                for (d, b) in bytes[start..].iter_mut().zip(i.to_le_bytes()) {
+                    *d = b;
+                }
+                i += 1;
+            }
+        }
+        _ => {
+            let s = p.rec_size().unwrap_or(8);
+            let mut i = 0u64;
+            while bytes.len() < total {
+                let rec = i.to_le_bytes();
+                let take = s.min(total - bytes.len());
+                bytes.extend_from_slice(&rec[..take.min(8)]);
+                i += 1;
+            }
+        }
+    }
+    let want = reference(p, &bytes, None);
+    let sent = bytes.clone();
+    let got = match catch(move || run_parser_on(p, ChunkSrc { items: Vec::new().into_iter(), body: Some(BodyStream::from(sent)) }, 0)) {
+        Ok(r) => r,
+        Err((loc, msg)) => {
+            return Err(violation(
+                format!("panic:whole-body:{}:{}", p.family(), loc_file(&loc)),
+                format!("{} over a {}-byte body handed over as one buffer panicked at {loc}: {msg}", p.name(), bytes.len()),
+                json!({"parser": p.name(), "body_len": bytes.len()}),
+            ));
+        }
+    };
+    if want != got {
+        let first = want.recs.iter().zip(&got.recs).position(|(a, b)| a != b);
+        return Err(violation(
+            format!("whole-body-parse-mismatch:{}", p.family()),
+            format!(
+                "{}: a {}-byte body handed over as one buffer encodes {} record(s) then {:?}; parsed {} record(s) then {:?} (first differing record: {:?})",
+                p.name(), bytes.len(), want.recs.len(), want.term, got.recs.len(), got.term, first
+            ),
+            json!({"parser": p.name(), "body_len": bytes.len(), "ld_wire_record": wire,
+                   "expected_records": want.recs.len(), "expected_end": format!("{:?}", want.term),
+                   "got_records": got.recs.len(), "got_end": format!("{:?}", got.term),
+                   "expected_tail": short(&want.recs[want.recs.len().saturating_sub(2)..]), "got_tail": short(&got.recs[got.recs.len().saturating_sub(2)..])}),
+        ));
+    }
+    let _ = env;
+    let cls = if delta == 0 { "exact-multiple" } else if delta.abs() <= 8 { "near-multiple" } else { "off-multiple" };
+    Ok(CaseOk::new(!want.recs.is_empty(), &(p, bytes.len(), wire), json!({"parser": p.name(), "body_len": bytes.len(), "records": want.recs.len(), "end": format!("{:?}", want.term)}))
+        .label(format!("parser:{}", p.family()))
+        .label(format!("unit:2^{}", unit.trailing_zeros()))
+        .label(format!("length:{cls}"))
+        .label(format!("end:{:?}", want.term)))
+}
+
 pub fn subs(env: &Env) -> Vec<Sub> {
     let v = vec![
         Sub::exhaustive("probe_dropped_records", 4, 4, probe_dropped,
@@ -1239,6 +1357,9 @@ pub fn subs(env: &Env) -> Vec<Sub> {
             "every catalogue stream of n<=10 bytes x all chunkings x every chunk boundary at which the inner stream reports an error (with and without empty chunks): records completed by the delivered bytes, then the inner error"),
         Sub::random("random_streams", 3400, 300_000, 12_000_000, random_streams,
             "longer streams (records 0..200 / length-prefixed records with lengths {0,1,2,..,300}, invalid records, truncated and over-long tails, arbitrary bytes) x random chunkings (one chunk, single bytes, tiny, small, medium, large, record-aligned, aligned+-1, mixed) with empty chunks and Pending interleaved and an inner-stream error at a generated chunk; reference parse + differential against the single-chunk delivery; non-trivial = at least two chunks and at least one record or error"),
+        Sub::random("whole_body", 8, 384, 12_000, whole_body,
+            "bodies handed to the parsers as ONE buffer through the crate's own body type (BodyStream::from(Vec<u8>), which cuts the buffer into network chunks itself): lengths k*2^j + d for 2^j in {4 KiB, 64 KiB, 1 MiB, 2 MiB}, k in 1..3, d in {0, -8..8, -2048..2048} (at most 3 MiB), index-carrying records, parsers Single/Batch (record sizes 3,4,7,8), LengthDelimited raw and flattened (wire record sizes 2, 256, 300, 1024, 65537) and Buffered<4096>: the parse equals the reference parse of the bytes (all records, in order, trailing partial data = error); non-trivial = at least one record")
+            .shrink_iters(24),
     ];
     v
 }
